@@ -415,7 +415,9 @@ class TestCase:  # noqa: PLR0904
             True if all references are satisfiable, False if the statement must
             be dropped.
         """
-        for name in stmt.used_variables():
+        # Sorted: the set's iteration order depends on string-hash randomisation, and
+        # every remapping below consumes a random choice.
+        for name in sorted(stmt.used_variables()):
             if name in dropped:
                 return False
             if name in rename:
